@@ -511,6 +511,14 @@ func (x *c08Run) step(i, sym int) {
 			x.dropUnread()
 		}
 	case sym == evEOF:
+		if r.Bool() && m.canRead() {
+			// the transport ends in the middle of a frame: still an abnormal closure, the fragment is not a frame
+			enc := wsref.Frame{Fin: true, Opcode: wsref.OpText, Payload: asciiBytes(r, r.Range(1, 300))}.Encode()
+			k := r.Range(1, len(enc)-1)
+			t.Feed(enc[:k])
+			x.c.Logf("%s: the peer sends the first %d of %d bytes of a frame and the transport ends", label, k, len(enc))
+			x.c.Count("transport_ends_inside_a_frame", 1)
+		}
 		t.SetEnd(xport.EndEOF)
 		api := r.Intn(4)
 		x.c.Logf("%s: transport EOF, read with %s (model state %v)", label, c06APIs[api], m.state)
@@ -612,11 +620,68 @@ func (x *c08Run) step(i, sym int) {
 		reason := string(asciiBytes(r, r.Intn(10)))
 		x.c.Logf("%s: %s(%d,%q) (model state %v)", label, name, code, reason, m.state)
 		var err error
+		// while the Close frame itself is still on its way out (asynchronous write held by the transport, or a
+		// blocking write that hit would-block), the stream is already closed-by-us: writes and a second Close are refused
+		window := m.state == mActive && r.Chance(1, 3)
+		inWindow := func(how string) bool {
+			if st := s.State(); st != websocket.StateClosedByUs {
+				x.fail("state-differs/closed-by-us", "%s %s: %s, State()=%v before the Close frame has left", label, name, how, st)
+				return false
+			}
+			var werr error
+			switch r.Intn(3) {
+			case 0:
+				wcalls := 0
+				s.AsyncWrite([]byte("late"), websocket.TypeText, func(e error) { wcalls++; werr = e })
+				if wcalls != 1 || werr == nil {
+					x.fail("write-accepted-when-not-active", "%s %s: %s, AsyncWrite was accepted (callback calls=%d err=%v)", label, name, how, wcalls, werr)
+					return false
+				}
+			case 1:
+				if werr = s.Write([]byte("late"), websocket.TypeText); werr == nil || errors.Is(werr, sonicerrors.ErrWouldBlock) {
+					x.fail("write-accepted-when-not-active", "%s %s: %s, Write returned %v", label, name, how, werr)
+					return false
+				}
+			default:
+				ccalls := 0
+				s.AsyncClose(websocket.CloseNormal, "", func(e error) { ccalls++; werr = e })
+				if ccalls != 1 || werr == nil {
+					x.fail("close-accepted-when-not-active", "%s %s: %s, a second AsyncClose was accepted (callback calls=%d err=%v)", label, name, how, ccalls, werr)
+					return false
+				}
+			}
+			x.c.Count("calls_refused_while_the_close_frame_was_in_flight", 1)
+			return true
+		}
 		if sym == lcClose {
+			if window {
+				t.WriteBlockAt = len(t.Written) + r.Intn(6)
+			}
 			err = s.Close(websocket.CloseCode(code), reason)
+			if window {
+				if errors.Is(err, sonicerrors.ErrWouldBlock) {
+					if !inWindow("blocking Close interrupted by would-block") {
+						return
+					}
+					for tries := 0; tries < 4 && errors.Is(err, sonicerrors.ErrWouldBlock); tries++ {
+						err = s.Flush()
+					}
+				}
+				t.WriteBlockAt = -1
+			}
 		} else {
 			calls := 0
+			if window {
+				t.HoldWrites = true
+			}
 			s.AsyncClose(websocket.CloseCode(code), reason, func(e error) { calls++; err = e })
+			if window {
+				ok := calls == 0 && inWindow("AsyncClose held by the transport")
+				t.ReleaseWrites()
+				if !ok && x.c.Failed() {
+					return
+				}
+			}
 			t.Pump()
 			if calls != 1 {
 				x.fail("close-callback-count", "%s %s: callback invoked %d times", label, name, calls)
